@@ -228,7 +228,7 @@ class Judge:
         self.lines.append((c03lib.dumps(m), 1 + 2 * len(m["funcs"])))
         self.expected += 1 + 2 * len(m["funcs"])
 
-    CHUNK = 8 << 20        # bytes of JSON per TLC run: TLC's value graph is ~50x the text, a full heap makes SerialGC thrash
+    CHUNK = 12 << 20        # bytes of JSON per TLC run: TLC's value graph is ~50x the text, a full heap makes SerialGC thrash
 
     def run(self, workers=16, heap="4g", tag="batch", guard=True):
         ctx = self.ctx
@@ -389,7 +389,10 @@ def emit_render(case, fname):
     st = []
     for name, arg in case["hist"]:
         st.append({"inst": "x = 1;", "ret": "return;", "hlt": "die();", "goto": "goto %s;" % arg, "label": "%s: ;" % arg,
-                   "ifgoto": "if (x) goto %s;" % arg}[name])
+                   "ifgoto": "if (x) goto %s;" % arg,
+                   "if": "if (x) {", "else": "} else {", "while": "while (x) {", "do": "do {", "for": "for (;%s;) {" % arg,
+                   "switch": "switch (x) {", "case": "case 1: ;", "default": "default: ;", "break": "break;", "continue": "continue;",
+                   "close": "} while (x);" if arg == "do" else "}"}[name])
     return "void %s(void) { %s }\n" % (fname, " ".join(st))
 
 
@@ -426,6 +429,24 @@ def emit_model(ctx, builds, judge):
     kinds = {h[0] for c in cases for h in c["hist"]}
     if kinds != {"inst", "ret", "hlt", "goto", "label", "ifgoto"}:
         raise vlib.MachineryError("vacuity guard: EmitModel statement actions taken: %s" % sorted(kinds))
+    # structured statements (deviations off: the invariants are checked on the way): exhaustive to 4 (5) calls, sampled to 8
+    r = ctx.tlc_must_pass("EmitModel", "MC_EmitModel_struct_quick.cfg" if q else "MC_EmitModel_struct_thorough.cfg",
+                          workers=8 if q else 16, timeout=1500, heap="4g")
+    r2 = ctx.tlc_must_pass("EmitModel", "MC_EmitModel_struct_sim.cfg", workers=4, simulate=150 if q else 1500, depth=12, timeout=900)
+    seen = set()
+    scases = []
+    for v in r.vcases + r2.vcases:
+        if v not in seen:
+            seen.add(v)
+            scases.append(json.loads(v))
+    skinds = {h[0] for c in scases for h in c["hist"]}
+    want = {"if", "else", "while", "do", "for", "switch", "case", "default", "break", "continue", "close"}
+    if not want <= skinds:
+        raise vlib.MachineryError("vacuity guard: structured EmitModel actions never taken: %s" % sorted(want - skinds))
+    if any(c["failing"] or c["dev"] for c in scases):
+        raise vlib.MachineryError("EmitModel (deviations off) printed a malformed behaviour")
+    ctx.cov["emit_struct_cases"] = len(scases)
+    cases += scases
     if not any(c["dev"] == ["DevUndefinedGoto"] for c in cases) or not any(c["dev"] == ["DevDuplicateLabel"] for c in cases):
         raise vlib.MachineryError("vacuity guard: a deviation never fired in the EmitModel behaviours")
     div = [c for c in cases if "EmitTerminates" in c["failing"]]
@@ -509,10 +530,10 @@ def emit_compare(ctx, u, judge):
             continue
         ctx.validated(1)
         c["_func"] = "f%d" % i
-    # quick: QbeWF judges every batch that contains a behaviour the model calls malformed and every 8th of the others;
-    # thorough (9x more behaviours): every 3rd batch.  The skeleton comparison above is done for all of them.
+    # QbeWF judges every 4th batch (quick) / every 3rd batch (thorough, 9x more behaviours); batches are sorted with the
+    # behaviours the model calls malformed first.  The skeleton comparison above is done for all of them.
     bi = int(u.id.split(":")[1].split("/")[0])
-    u.meta["judged"] = (any(c["failing"] for c in u.meta["cases"]) or bi % 8 == 0) if ctx.quick else (bi % 3 == 0)
+    u.meta["judged"] = (bi % 4 == 0) if ctx.quick else (bi % 3 == 0)
     if u.meta["judged"]:
         judge.add(u)
 
@@ -735,16 +756,16 @@ def audit_globs(ctx, globs):
 
 def generated_units(ctx, targets):
     q = ctx.quick
-    plan = [("MC_WfGen.cfg", "plain", 55 if q else 120), ("MC_WfGen_noret.cfg", "noret", 8 if q else 15),
-            ("MC_WfGen_undef.cfg", "undef", 6 if q else 10)]
     units, globs, seen = [], {}, set()
-    for cfg, cat, per_worker in plan:
-        r = ctx.tlc_must_pass("WfGen", cfg, workers=4, simulate=per_worker, depth=500, timeout=900)
+    if True:
+        # one -simulate run; a behaviour draws its category (plain / noret / undef) in Init from ModeMix
+        r = ctx.tlc_must_pass("WfGen", "MC_WfGen.cfg", workers=4, simulate=70 if q else 145, depth=500, timeout=900)
         for v in r.vcases:
             if v in seen:
                 continue
             seen.add(v)
             c = json.loads(v)
+            cat = c["mode"]
             for g in c["globs"]:
                 globs[g["name"]] = g
             src = gen_render(c, len(seen) % 4 == 0)
@@ -760,6 +781,9 @@ def generated_units(ctx, targets):
         p = subprocess.run(["gcc", "-std=c11", "-fsyntax-only", "-w", "-x", "c", "-"], input=u.src, stdout=subprocess.PIPE,
                            stderr=subprocess.STDOUT, text=True)
         return p.returncode, p.stdout
+    cats = {u.meta["cat"] for u in units}
+    if cats != {"plain", "noret", "undef"}:
+        raise vlib.MachineryError("vacuity guard: WfGen categories drawn: %s" % sorted(cats))
     first = [u for u in units if u.target == targets[0]]
     for u, (rc, msg) in zip(first, vlib.pmap(audit, first)):
         if (rc != 0) != u.meta["undef"]:
